@@ -662,8 +662,28 @@ def c08_case(ctx, seed):
         for s in sc["stmts"][1:]:
             if rng.random() < 0.5:
                 s["ins"] = s["ins"] + [g0["outs"][0]]
+    # ... and a generator that itself works on the build directory the way gn does: its command ends with `ninja -t restat` or
+    # `ninja -t recompact`, which replace .ninja_log while the outer ninja is in the middle of its session.  That is what the
+    # log is closed for before a generator statement starts.  The generator runs alone here (a few statements before it, all
+    # others behind it), so that the outer ninja appends nothing while the file is being replaced.
+    nested = None
+    if with_gen and rng.random() < 0.5:
+        nested = rng.choice(("restat", "recompact"))
+        g0 = sc["stmts"][0]
+        npre = rng.randint(1, 4)
+        pre = sc["stmts"][1:1 + npre]
+        for s in pre:
+            s["ins"] = ["in.c"]
+        g0["oins"] = [s["outs"][0] for s in pre]
+        for s in sc["stmts"][1 + npre:]:
+            if g0["outs"][0] not in s["ins"]:
+                s["ins"] = s["ins"] + [g0["outs"][0]]
     t = Tree(sc)
-    rep = {"seed": seed, "generator_statement": with_gen}
+    if nested:
+        sc["stmts"][0]["shell_suffix"] = " && %s -t %s > nested.out 2>&1" % (t.ninja, nested)
+        t.install(sc)
+        ctx.count("e2e_log_generator_runs_ninja_-t_" + nested)
+    rep = {"seed": seed, "generator_statement": with_gen, "generator_runs": nested}
     what = "e2e log scenario %d" % seed
     try:
         rounds = rng.randint(4, 6)
@@ -933,22 +953,41 @@ def c16_rsp_case(ctx, seed, prop="C16"):
             for s in sc["stmts"]:
                 if s["kind"] == "cmd" and s["rsp"]:
                     s["rsp_content"] = "a rather long list of flags before the inputs: " + s["rsp_content"] + " and a long tail after them"
-            t.install(sc, extra={s["id"]: ["--exit", "3"] for s in victims})
-            rc, so, se = t.run(["-k", "0", "-j4"])
+            # "fails" comes in more than one kind: an exit status, or the command's process ended by a signal - SIGKILL/SIGSEGV
+            # (an ordinary failure for ninja) or SIGTERM/SIGINT/SIGHUP (which ninja takes for an interrupt of the whole build: it
+            # stops the other commands and cleans up after them).  Neither kind of command succeeded: the response files of all of
+            # them, and of the commands that were stopped, stay.
+            how = {}
+            for s in victims:
+                if rng.random() < 0.35:
+                    how[s["id"]] = rng.choice((15, 2, 1, 9, 11))
+                    s["shell_prefix"] = "exec "            # the tool takes the place of the shell ninja spawned
+            if how:
+                ctx.count("e2e_rsp_commands_ended_by_signal", len(how))
+            t.install(sc, extra={s["id"]: (["--kill-self", str(how[s["id"]])] if s["id"] in how else ["--exit", "3"]) for s in victims})
+            rc, so, se = t.run(["-k", "0", "-j4"], settle=True)
+            for s in victims:
+                s.pop("shell_prefix", None)
             ctx.evaluations += 1
             sig = util.san_signature((so + se).decode("latin-1"))
             if sig:
                 ctx.violation(prop + "/e2e-sanitizer/" + sig, "%s: %s" % (what, (so + se).decode("latin-1")[-1200:]), rep)
                 return
             ran0 = {e["id"] for e in t.events() if e["e"] == "S"}
-            for s in victims:
-                if s["outs"][0] not in ran0:
+            ended_ok = {e["id"] for e in t.events() if e["e"] == "E" and e["x"].split(" ")[0] in ("", "0")}
+            interrupted = any(v in (15, 2, 1) for v in how.values()) and rc == 130
+            for s in (rsps if interrupted else victims):
+                if s["outs"][0] not in ran0 or (s not in victims and s["outs"][0] in ended_ok):
                     continue
                 ctx.count("e2e_rsp_kept_checks")
                 got = t.read(s["rsp"])
                 if got is None or got.decode("latin-1") != simlib.rsp_string(s):
-                    ctx.violation(prop + "/e2e-rspfile-after-failure", "%s: after the command of %s failed its response file is %r, expected %r" %
-                                  (what, s["outs"][0], got, simlib.rsp_string(s)), rep)
+                    kind = "failure" if s["id"] not in how else ("signal-%d" % how[s["id"]])
+                    if s not in victims:
+                        kind = "stopped-with-the-build"
+                    ctx.violation(prop + "/e2e-rspfile-after-%s" % ("failure" if kind == "failure" else "unsuccessful-end/" + kind),
+                                  "%s: the command of %s did not succeed (%s) and its response file is %r, expected %r" %
+                                  (what, s["outs"][0], kind, got, simlib.rsp_string(s)), rep)
                     return
             for s in sc["stmts"]:
                 if s["kind"] == "cmd" and s["rsp"]:
